@@ -240,7 +240,13 @@ def gen_gsa_case(rs, thorough, fk=None, gk=None, three_d=None):
     shape = gen_shape(rs, thorough, three_d)
     f, m = gen_f(rs, fk, shape)
     g, info = gen_g(rs, gk, f, shape)
-    return {"kind": "gsa", "fk": fk, "gk": gk, "f": f, "g": g, "info": info}
+    # memory layout must not matter: Fortran-ordered arrays / transposed views carry the same cells
+    lay = ["CC", "CC", "FC", "CF", "FF"][int(rs.integers(0, 5))]
+    if lay[0] == "F":
+        f = np.asfortranarray(f)
+    if lay[1] == "F":
+        g = np.asfortranarray(g)
+    return {"kind": "gsa", "fk": fk, "gk": gk, "f": f, "g": g, "info": info, "layout": lay}
 
 
 def gen_pct_case(rs, thorough, fk=None):
@@ -304,7 +310,7 @@ def run_pct(case):
 def case_hint(case):
     np = _impl()[0]
     if case["kind"] == "gsa":
-        return {"kind": "gsa", "f": np.asarray(case["f"]).tolist(), "g": np.asarray(case["g"]).tolist(),
+        return {"kind": "gsa", "layout": case.get("layout", "CC"), "f": np.asarray(case["f"]).tolist(), "g": np.asarray(case["g"]).tolist(),
                 "f_dtype": str(np.asarray(case["f"]).dtype), "g_dtype": str(np.asarray(case["g"]).dtype),
                 "fk": case["fk"], "gk": case["gk"]}
     return {"kind": "pct", "flx": np.asarray(case["flx"]).tolist(),
@@ -315,9 +321,14 @@ def case_hint(case):
 def case_from_hint(h):
     np = _impl()[0]
     if h["kind"] == "gsa":
-        return {"kind": "gsa", "fk": h.get("fk", "?"), "gk": h.get("gk", "?"),
-                "f": np.array(h["f"], dtype=h.get("f_dtype", "float64")),
-                "g": np.array(h["g"], dtype=h.get("g_dtype", "float64")), "info": {"base": None}}
+        f = np.array(h["f"], dtype=h.get("f_dtype", "float64"))
+        g = np.array(h["g"], dtype=h.get("g_dtype", "float64"))
+        lay = h.get("layout", "CC")
+        if lay[0] == "F":
+            f = np.asfortranarray(f)
+        if lay[1] == "F":
+            g = np.asfortranarray(g)
+        return {"kind": "gsa", "fk": h.get("fk", "?"), "gk": h.get("gk", "?"), "f": f, "g": g, "info": {"base": None}, "layout": lay}
     return {"kind": "pct", "fk": h.get("fk", "?"), "flx": np.array(h["flx"], dtype=float),
             "grid": tuple(np.array(a, dtype=float) for a in h["grid"]), "level": h["level"], "pct": h["pct"],
             "gridkind": h.get("gridkind", "?")}
